@@ -17,11 +17,16 @@
    (0 and VNADATA_DEFAULT_Z0); frequencies (double) are integers (only the test
    `frequency < 0.0` looks at them).  C ints are Z on the argument side.
 
-   The model follows the code with the proposed repairs of /verif/fixes applied
-   (D4: port >= ports refused; D5: in-place conversion to Zin clears the vacated cells; D6: convert_to_fz0 copies only the logical frequencies;
-    D7: new row pointers are cleared; D40: rows*columns is range checked).  The behaviour of the
-   code as found is selected by the `quirks` argument, so that the refutations of the positive
-   theorems for the unrepaired code can be stated about the very same definitions. *)
+   The model follows the code as it is in /repo now, i.e. with the repairs D4 (port >= ports
+   refused), D6 (convert_to_fz0 copies only the logical frequencies) and D40 (rows * columns is
+   range checked) - the three that the functions of this file read from `quirks`.  The behaviour
+   of the code as found before those repairs is selected by the `quirks` argument, so that the
+   refutations of the positive theorems for the unrepaired code can be stated about the very
+   same definitions.  q_d5 (in-place conversion to Zin clears the vacated cells) is read only by
+   ConvertModel.convert (property C05).  Row pointers (vd_data[f], vdi_z0_vector_vector[f]) are
+   not represented: a frequency row is "allocated" iff f < f_alloc, so the repairs D7 (new row
+   pointers cleared) and D49 (no memcpy / memset with a NULL pointer and length 0) have no
+   counterpart here; they are confirmed by the sanitizer build of the correspondence only. *)
 Require Import List ZArith Bool Lia.
 Import ListNotations.
 
@@ -447,6 +452,37 @@ Definition step (d : vd) (o : op) : vd * outcome :=
   end.
 
 Definition run (d : vd) (l : list op) : vd := fold_left (fun s o => fst (step s o)) l d.
+
+(* ---------------------------------------------------------------- caller-supplied vectors *)
+(* The vector-taking setters read a number of elements from a buffer of the caller that the C
+   code cannot check: vnadata_set_frequency_vector memcpy's vd_frequencies doubles,
+   vnadata_set_matrix rows * columns values (after the frequency index test),
+   vnadata_set_from_vector reads vector[0 .. frequencies-1] (after the row / column tests),
+   vnadata_set_z0_vector and vnadata_set_fz0_vector memcpy MAX(rows, columns) values (the latter
+   after the frequency index test).  The functions above read the op's list with `nth k l _`,
+   which yields a default beyond the end of the list, where the C code reads past the end of the
+   caller's buffer.  `short_vector d o`: the call gets as far as the copy and the caller's vector
+   has fewer elements than the copy reads.  `step_chk` treats the caller's buffer as one more
+   checked memory, of `length l` elements: a read beyond it is the outcome RFault, like every
+   other access outside an allocation (the state returned with RFault carries no meaning; the C
+   code may already have switched the z0 mode before the copy).  `step` is kept as it is: it is
+   what `step_chk` does for a caller that supplies the documented number of elements, and it is
+   the function the op-script correspondence executes (the harness, as the caller, completes
+   every vector to the documented length with zeros before the call). *)
+Definition short_vector (d : vd) (o : op) : bool :=
+  match o with
+  | OSetFreqVec l => Nat.ltb (length l) (freqs d)
+  | OSetMatrix f l => in_range f (freqs d) && Nat.ltb (length l) (cells d)
+  | OSetFromVec r c l => in_range r (rows d) && in_range c (cols d) && Nat.ltb (length l) (freqs d)
+  | OSetZ0Vec l => Nat.ltb (length l) (ports d)
+  | OSetFz0Vec f l => in_range f (freqs d) && Nat.ltb (length l) (ports d)
+  | _ => false
+  end.
+
+Definition step_chk (d : vd) (o : op) : vd * outcome :=
+  if short_vector d o then (d, fault) else step d o.
+
+Definition run_chk (d : vd) (l : list op) : vd := fold_left (fun s o => fst (step_chk s o)) l d.
 
 (* ---------------------------------------------------------------- observation (digest) *)
 (* What a client can see through the public getters: dimensions, every frequency, every cell,
